@@ -275,11 +275,21 @@ func (g *gen) typeSpec(f, kind string, grouped bool) {
 		}
 		t.Decoys = append(t.Decoys, "prev-trailing:"+d)
 	} else {
-		if g.o.Docs && g.r.Intn(2) == 0 {
-			g.w(f, "%s// %s does something.", ind, name)
-		}
-		for _, l := range lines {
-			g.w(f, "%s", l)
+		if !grouped && len(lines) > 0 && g.r.Intn(4) == 0 {
+			// the same tags inside a multi-line block comment (unindented, ends on the line above the declaration)
+			g.w(f, "/*")
+			g.w(f, "%s is documented by a block comment.", name)
+			for _, l := range lines {
+				g.w(f, "%s", strings.TrimPrefix(strings.TrimSpace(l), "// "))
+			}
+			g.w(f, "*/")
+		} else {
+			if g.o.Docs && g.r.Intn(2) == 0 {
+				g.w(f, "%s// %s does something.", ind, name)
+			}
+			for _, l := range lines {
+				g.w(f, "%s", l)
+			}
 		}
 	}
 	switch kind {
